@@ -1,5 +1,5 @@
 #!/bin/bash
-# tools/confirm_seed.sh <ID> [check-args...]
+# tools/confirm_seed.sh <ID>[-<round>] [check-args...]   (e.g. C09, C09-2)
 # Confirms a seeded change kept under /verif/seeded/<ID>/ in scratch worktrees (never in /repo):
 #  1. demonstration passes on the unchanged tree, fails with the change (scratch worktree /tmp/w-confirm)
 #  2. the repository's test suite still passes with the change (nextest, same command as the baseline)
@@ -31,8 +31,9 @@ cat > /tmp/mut/seed_$id.py <<PY
 import subprocess,sys
 subprocess.check_call(["git","-C",sys.argv[1],"apply","$d/patch.diff"])
 PY
-bin=$(echo "$id" | tr 'A-Z' 'a-z')
-case "$id" in C17) bins="c17a c17b";; C13) bins="c13a c13b";; *) bins="$bin";; esac
+base="${id%%-*}"
+bin=$(echo "$base" | tr 'A-Z' 'a-z')
+case "$base" in C17) bins="c17a c17b";; C13) bins="c13a c13b";; *) bins="$bin";; esac
 for b in $bins; do
   echo "== check $b with the change" | tee -a "$log"
   /verif/tools/mutate.sh m1 "$b" /tmp/mut/seed_$id.py -- "$@" 2>&1 | tee -a "$log"
